@@ -220,7 +220,9 @@ impl BuiltInFunction {
                         let mut result = self.map_result.0.borrow_mut();
 
                         if let ReturnValue::Value(value) = return_value {
-                            result.push(value);
+                            // a callback that returns `x[0]` hands back a reference into that
+                            // list; the new list holds the value, not the reference
+                            result.push(value.move_out_of_heap_primitive()?);
                         }
 
                         Ok((self.index.get() as usize) < self.underlying.0.borrow().len())
@@ -301,7 +303,14 @@ impl BuiltInFunction {
                     fn then(&self, return_value: ReturnValue) -> Result<bool> {
                         let mut result = self.filter_result.0.borrow_mut();
 
-                        if let ReturnValue::Value(Primitive::Bool(true)) = return_value {
+                        let keep = match return_value {
+                            ReturnValue::Value(value) => {
+                                matches!(value.move_out_of_heap_primitive()?, Primitive::Bool(true))
+                            }
+                            _ => false,
+                        };
+
+                        if keep {
                             let underlying = self.underlying.0.borrow();
                             let this_index: usize = (self.index.get() - 1).try_into()?;
                             result.push(underlying[this_index].clone());
